@@ -126,6 +126,15 @@ def scenarios(rng: random.Random, tier: str):
             evs = [f"rx {order[0]} " + nodegen.ccr(hb, n(), names[order[0]]), f"rx {order[1]} " + nodegen.ccr(hb, n(), names[order[1]]),
                    leave, "ans 0 %d 2001" % order.index(0), "ans 0 %d 2001" % order.index(1)]
             out.append(pre2 + " | " + " | ".join(evs))
+    # a peer with two established connections (overlapping reconnect): requests pending on both, the DPR arrives on one of
+    # them; the answer for the request on that one is not routable, the other connection still gets its answer
+    for dpr_on in (0, 1):
+        pre2 = (cfg + " | start | acc | rx 0 " + nodegen.cer("peer1.x", "4", n(), n()) + " | acc | rx 1 " +
+                nodegen.cer("peer1.x", "4", n(), n()))
+        evs = ["rx 0 " + nodegen.ccr(n(), n(), "peer1.x"), "rx 1 " + nodegen.ccr(n(), n(), "peer1.x"),
+               f"rx {dpr_on} " + nodegen.dpr(n(), n(), "peer1.x")]
+        for order in (("ans 0 0 2001", "ans 0 1 2001"), ("ans 0 1 2001", "ans 0 0 2001")):
+            out.append(pre2 + " | " + " | ".join(evs + list(order)))
     for rep in range(120 if tier == "quick" else 2500):
         npeers = rng.randrange(1, 4)
         pre = cfg + " | start | " + " | ".join(f"acc | rx {i} " + nodegen.cer(names[i], "4", n(), n()) for i in range(npeers))
